@@ -297,6 +297,9 @@ class AttributeCollection(MutableMapping[int, Attribute]):
                             ],
                         ),
                     ],
+                    # stored in 4-byte form so that a local AS above 65535 can be held at all;
+                    # pack_attribute() converts to AS_TRANS + AS4_PATH for a 2-byte peer
+                    asn4=True,
                 )
             ),
             Attribute.CODE.LOCAL_PREF: lambda left, right: LocalPreference.from_int(100) if left == right else NOTHING,
